@@ -57,6 +57,11 @@ class Interp(StmtMixin, ExtMixin, OpsMixin, InterpCore):
         return v
 
     def instantiate(self, ci, args, kwargs, node):
+        h = self.__dict__.get("class_standins", {}).get(ci.fq)
+        if h is not None:
+            # a collaborator class replaced, at its constructor, by a stand-in for what it delivers (the check using
+            # the stand-in names the collaborator's own obligations)
+            return h(self, ci, args, kwargs)
         v = OpsMixin.instantiate(self, ci, args, kwargs, node)
         if isinstance(v, InstV):
             v.birth = len(self.path_conds)
